@@ -466,16 +466,20 @@ def rule_PF1(ctx, rep):
         rep.bad('PF1', call, rets[-1] if rets else call.qualname, f'return value is not `x[0] if {npar} is None else x`', call.node)
     # __init__: byte length covers bound-1, extra key-length bytes exactly for non powers of two
     bl = [s for s in iter_nodes(init.node) if isinstance(s, ast.Assign) and norm(s.targets[0]) == 'self.byte_length']
-    ex = [i for i in iter_nodes(init.node) if isinstance(i, ast.If) and any(isinstance(x, ast.AugAssign) and norm(x.target) == 'self.byte_length' for x in i.body)]
+    # the statement adding the extra bytes, and the condition under which it runs (nesting, polarity, early return alike)
+    ex = [x for x in iter_nodes(init.node) if isinstance(x, ast.AugAssign) and isinstance(x.op, ast.Add) and norm(x.target) == 'self.byte_length']
     b = init.params[2]
     if bl and norm(bl[0].value) == f'(({b} - 1).bit_length() + 7) // 8':
         rep.ok('PF1', init, bl[0], 'digest block covers the bit length of bound-1')
     else:
         rep.bad('PF1', init, bl[0] if bl else init.qualname, 'block length does not cover (bound-1).bit_length() bits', init.node)
-    if ex and norm(ex[0].test) == f'{b} & {b} - 1':
-        rep.ok('PF1', init, ex[0].test, 'extra bytes (statistical closeness) exactly for bounds that are not powers of two (exact integer test)')
+    from . import cond
+    pmi = parents(init.node)
+    want = cond.formula(init, ast.parse(f'{b} & {b} - 1', mode='eval').body, ex[0], pmi) if ex else None
+    if len(ex) == 1 and cond.equivalent(cond.context(init, ex[0], pmi), want):
+        rep.ok('PF1', init, ex[0], 'extra bytes (statistical closeness) exactly for bounds that are not powers of two (exact integer test)')
     else:
-        rep.bad('PF1', init, ex[0].test if ex else init.qualname, 'the power-of-two test for the bound is not the exact `bound & (bound - 1)`', init.node)
+        rep.bad('PF1', init, ex[0] if ex else init.qualname, 'the power-of-two test for the bound is not the exact `bound & (bound - 1)`', init.node)
 
 
 # ---------------------------------------------------------------------------------- G1
